@@ -43,7 +43,7 @@ func verifDocSchema(part int) *schema.Schema {
 		t0.AddColumns(c)
 	case 1:
 		str := verifStrings[verifChoice("str", len(verifStrings))]
-		switch verifChoice("where", 6) {
+		switch verifChoice("where", 9) {
 		case 0:
 			d.SetDefault(&schema.Literal{V: quote(str)})
 		case 1:
@@ -56,6 +56,15 @@ func verifDocSchema(part int) *schema.Schema {
 			n.SetDefault(&schema.Literal{V: fmt.Sprint(verifInt("numval", 0, 3))})
 		case 5:
 			n.SetDefault(&schema.Literal{V: "-1"})
+		case 6:
+			// identity column as inspection reports it (generation, sequence start / increment / last value)
+			gen := []string{"BY DEFAULT", "ALWAYS"}[verifChoice("idgen", 2)]
+			id.AddAttrs(&Identity{Generation: gen, Sequence: &Sequence{Start: int64(verifInt("seqstart", 1, 3)), Increment: int64(verifInt("seqinc", 1, 2)), Last: int64(verifInt("seqlast", 0, 2))}})
+		case 7:
+			g := schema.NewIntColumn("g", TypeBigInt).SetGeneratedExpr(&schema.GeneratedExpr{Expr: "(n + 1)", Type: "STORED"})
+			t0.AddColumns(g)
+		case 8:
+			d.SetCollation("C")
 		}
 	}
 	t0.AddColumns(d, n)
